@@ -90,6 +90,9 @@ pub struct Variant {
     pub name: String,
     pub style: VStyle,
     pub fields: Vec<Field>,
+    /// explicit discriminant (`V = 4`); it is the tag value of a zero-copy (`repr(C)`) enum,
+    /// while deep-copy enums are tagged with the variant index
+    pub disc: Option<u32>,
 }
 
 #[derive(Clone, Debug, PartialEq, Eq, Hash)]
@@ -388,7 +391,12 @@ fn fill_image(ty: &Ty, val: &Val, bytes: &mut [u8], mask: &mut [bool], off: usiz
                 other => panic!("bad adt value {:?}", other),
             };
             if adt.is_enum {
-                bytes[off..off + 4].copy_from_slice(&(vi as u32).to_le_bytes());
+                // C rule: an explicit discriminant, otherwise the previous one plus one
+                let mut d = 0u32;
+                for (k, v) in adt.variants.iter().enumerate().take(vi + 1) {
+                    d = match v.disc { Some(x) => x, None if k == 0 => 0, None => d + 1 };
+                }
+                bytes[off..off + 4].copy_from_slice(&d.to_le_bytes());
                 for m in &mut mask[off..off + 4] { *m = false; }
             }
             let var = &adt.variants[vi];
